@@ -3166,6 +3166,12 @@ func (p *Posix) DeleteObject(ctx context.Context, input *s3.DeleteObjectInput) (
 				if err != nil && !errors.Is(err, meta.ErrNoSuchKey) {
 					return nil, fmt.Errorf("delete versionId: %w", err)
 				}
+				// the delete marker is the new null version: it replaces an
+				// archived null version, otherwise the key would have two
+				err = p.deleteNullVersionIdObject(bucket, object)
+				if err != nil {
+					return nil, err
+				}
 			}
 
 			return &s3.DeleteObjectOutput{
